@@ -26,6 +26,12 @@ CLAIMED["C03"] = ("exploration",
     "Trusted: Denote/Repr/Count as observation of a value's content. Mutation through Go-level misuse of exported slices by callers outside arrai is out of scope.",
     "DESIGN.md §7 C03")
 
+CLAIMED["C02"] = ("exploration",
+    "runtime reference-model monitor over pairs of construction paths: a = b compared with equality of denotations, plus set-collapse, dict-key, printed form, order and congruence contexts",
+    "For every model value of the universe all unordered pairs of its construction paths (up to 15 path kinds: sugar, spelled-out tuples, relation literals in both column orders, unions, with-chains, without, where, =>, &~, &, ++, offset round trip, >>, +>-merged tuples, dict union/merge) are evaluated live and judged on their ACTUAL denotations: equal denotation must give = / not != / one set member / same dict entry / identical printed form / neither < nor > / equal results (by denotation and by =) under 12 contexts; near-miss pairs from neighbouring model values must be unequal and stay two members. Exhaustive over the core universe, seeded beyond.",
+    "Trusted: Denote as the definition of 'same set'. Known findings (sparse strings, superimposed bytes, two panic sites in Less) are matched by hazard+mode or panic site; interchangeability is sampled over 12 contexts.",
+    "DESIGN.md §7 C02")
+
 NOT_YET = "check not built yet in this session (planned, see DESIGN.md §7/§12); will be claimed once its monitor is silent on the unchanged tree and catches seeded breaks"
 
 def main():
